@@ -371,6 +371,31 @@ def run_sweep(ctx, info, sizes):
     return res, log
 
 
+def shrink(ctx, info, evs, limit, rounds=12):
+    """greedy delta-debugging of one failing history: drop single events while the monitor still rejects
+    (both sides are re-run on every candidate batch)"""
+    cur = evs
+    for rnd_i in range(rounds):
+        n, size, cands = len(cur), len(cur) // 2, []
+        while size >= 1:                      # ddmin: drop chunks of n/2, n/4, ... 1 events
+            for start in range(0, n, size):
+                c = cur[:start] + cur[start + size:]
+                if c and c not in cands:
+                    cands.append(c)
+            size //= 2
+        if not cands:
+            break
+        impl, _ = run_impl(ctx, info, cands, tag="-shrink%d" % rnd_i)
+        if impl is None:
+            break
+        res, _ = evaluate(ctx, cands, impl["histories"], [], limit, "shrink_c15_%d" % rnd_i)
+        if res is None or not res["monf"]:
+            break
+        hi, ei = min(res["monf"], key=lambda x: x[1])
+        cur = cands[hi][:ei + 1]
+    return cur
+
+
 def state_changing(evs):
     return any(e["op"] in ("add", "del", "close") for e in evs)
 
@@ -458,10 +483,18 @@ def run(ctx, replay=None):
     nviol = 0
     for hi, ei in res["monf"][:2]:
         nviol += 1
+        small = hs[hi][:ei + 1]
+        try:
+            small = shrink(ctx, info, small, limit)
+        except Exception as e:  # noqa: BLE001  (shrinking is best effort)
+            ctx.notes.append("shrink failed: %s" % e)
+        sobs, _ = run_impl(ctx, info, [small], tag="-final")
         ctx.violation({"property": "C15", "what": "monitor (C15_tick_exact / C15_deliver / C15_tickers as boolean checks) rejects what the "
-                       "implementation did at event %d of this history" % ei,
-                       "cases": [hs[hi][:ei + 1]], "failing_event": hs[hi][ei], "impl_observation": obs[hi][ei],
-                       "impl_observations": obs[hi][:ei + 1], "replay_cmd": "python3 check.py C15 --replay <this file>"})
+                       "implementation did at the last event of this (shrunk) history",
+                       "cases": [small], "failing_event": small[-1],
+                       "impl_observations": sobs["histories"][0] if sobs else None,
+                       "original_history": hs[hi][:ei + 1], "original_failing_index": ei, "original_impl_observation": obs[hi][ei],
+                       "replay_cmd": "python3 check.py C15 --replay <this file>"})
     for hi, ei, what in anomalies[:2]:
         if any(hi == h for h, _ in res["monf"][:2]):
             continue
